@@ -214,6 +214,16 @@ def _check_image(ctx, d, ds, fr, reqs, pending):
                 else:
                     if st == 'ok':
                         ctx.fail(case, 'out-of-range frame number accepted (wrapped?)', site=f'get_stored_frame/{name}')
+                if inrange and d.get('junk_above_bits_stored') and d['samples'] == 1:
+                    # the frame as get_frame / get_frames hand it out (no transform is described in these images) is the
+                    # stored value too: their decoder has its own copy of the decode parameters
+                    for what, f in (('get_frame', lambda: im.get_frame(kk, as_index=as_index, dtype=np.int64)),
+                                    ('get_frames', lambda: im.get_frames([kk], as_indices=as_index, dtype=np.int64)[0])):
+                        st4, v4 = _fetch(f)
+                        ctx.case(path=name + '/get_frame-junk')
+                        if st4 != 'ok' or not np.array_equal(np.asarray(v4).astype(np.int64), ref[idx].astype(np.int64)):
+                            ctx.fail(dict(case, call=what), f'{what} does not return the stored values of data with junk above BitsStored: '
+                                     f'{v4 if st4 != "ok" else np.asarray(v4).reshape(-1)[:4].tolist()}', site=f'{what}/junk')
                 # ---- model (native only)
                 if native and name in ('memory', 'lazy'):
                     pd = list(ds.PixelData)
